@@ -347,7 +347,7 @@ def standin_subcircuit_handling(tier, seed):
 
     # expand_composite decomposes sub-circuit operations on purpose (a CircuitOperation is a composite operation): not part of these clauses
     tfs = [t for t in _transformers() if t[1] is not None and not any(k in t[0] for k in ("unroll", "Gauge", "dynamical", "defer", "index_tags", "optimize_for_target", "expand_composite"))]
-    structural = ("align_left", "align_right", "stratified_circuit", "synchronize_terminal_measurements", "drop_empty_moments", "drop_negligible_operations", "insertion_sort_transformer",
+    structural = ("align_left", "align_right", "stratified_circuit", "synchronize_terminal_measurements", "drop_empty_moments", "insertion_sort_transformer",
                   "drop_diagonal_before_measurement")  # transformers that never replace an operation by an equivalent one
     cases, fails = 0, []
     for _ in range(12 if tier == "quick" else 150):
@@ -364,7 +364,7 @@ def standin_subcircuit_handling(tier, seed):
                 args = dict(transformer=name, deep=deep, circuit=repr(circ))
                 # transformers that may absorb a whole untagged sub-circuit operation as one unit (k-qubit merges) are only held to the
                 # tagged operations of the level they work on; the others to every nesting level
-                absorbing = any(k in name for k in ("merge_k_qubit", "merge_operations_to_circuit_op", "eject_", "merge_single_qubit_gates"))
+                absorbing = any(k in name for k in ("merge_k_qubit", "merge_operations_to_circuit_op", "eject_", "merge_single_qubit_gates", "drop_negligible"))  # (a whole sub-circuit that is the identity is negligible)
                 top_in = sorted(repr(o) for o in circ.all_operations() if "ignore" in o.tags)
                 top_out = sorted(repr(o) for o in out.all_operations() if "ignore" in o.tags)
                 if top_in != top_out or (not absorbing and tagged_ops(out) != tagged_ops(circ)):
